@@ -154,8 +154,8 @@ def replay_file(path, fields=default_fields, preds=(oracle_pred, fault_pred), ne
     kvs = dict(t.split('=') for t in cfgl[0].split()[1:])
     partner = None
     if 'fl2' in kvs:
-        partner = (kvs['fl2'], int(kvs['n2']), kvs['st2'], 0 if kvs.get('realloc2', '1') == '1' else 1)
-    cfg = V.VecCfg(kvs['fl'], int(kvs['n']), kvs['st'], kvs['cat'], alloc=0 if kvs.get('realloc', '1') == '1' else 1,
+        partner = (kvs['fl2'], int(kvs['n2']), kvs['st2'], int(kvs['akind2']) if 'akind2' in kvs else (0 if kvs.get('realloc2', '1') == '1' else 1))
+    cfg = V.VecCfg(kvs['fl'], int(kvs['n']), kvs['st'], kvs['cat'], alloc=int(kvs['akind']) if 'akind' in kvs else (0 if kvs.get('realloc', '1') == '1' else 1),
                    pool=int(kvs.get('pool', 3)), partner=partner, pool2=int(kvs.get('pool2', 1)))
     script = [l for l in body if not l.startswith('cfg ')]
     C.translate(); C.lake_build(['amcdriver'])
